@@ -42,7 +42,6 @@ man = {
     "not_applicable": na,
     "notes": "All verdicts are of the form 'held on the K executions observed'. Exit 0 held, 1 violated (VIOLATION line + replay file), 2 inconclusive (a monitor never evaluated, a coverage floor missed, a worker died).",
 }
-if not na:
-    del man["not_applicable"]
+# the list is kept (empty) so that it is visibly current: every property of properties.jsonl is claimed
 json.dump(man, open(os.path.join(HERE, "MANIFEST.json"), "w"), indent=1)
 print("checks:", [c["property_id"] for c in checks], "not claimed:", [n["property_id"] for n in na])
